@@ -53,6 +53,14 @@ def gen_case(rng, big=False, allow_huge=True):
     if rng.random() < 0.5:
         hot = [t for t in hot if t in (2, 3)] or hot
     p0 = gen_policy(rng, n)
+    focus = rng.random() < 0.3   # tolerance scenarios: few nodes, one type, many samples around +-tolerance
+    if focus:
+        n = rng.choice([2, 2, 3])
+        tol = rng.choice([30 * MS, 30 * MS, 100 * MS, 0])
+        offs = [rng.choice([0, 0, 10 * MS, tol]) for _ in range(n)]
+        levels = [20 * MS, 50 * MS, 50 * MS + tol, 80 * MS, 100 * MS, 100 * MS + tol, max(100 * MS - tol, 1), 130 * MS, max(tol - 1, 0), tol]
+        hot = [rng.choice([2, 2, 4, 0])]
+        p0 = {"p": rng.choice(["min", "min", "min_avg10", "min_moving_avg"]), "i": 0}
     cur = p0["p"]
     ops = []
     n_ops = rng.randint(1, 70 if big else 30)
@@ -60,7 +68,7 @@ def gen_case(rng, big=False, allow_huge=True):
         r = rng.random()
         d = rng.randrange(n)
         t = rng.choice(hot)
-        if r < 0.33:
+        if r < (0.6 if focus else 0.33):
             ops.append({"k": "sample", "d": d, "t": t, "lat": rng.choice(levels)})
         elif r < 0.43:
             ops.append({"k": "die", "d": d, "t": t})
@@ -297,12 +305,19 @@ def shrink(sc, binary, case, codes):
     f = failing([dict(cur, ops=ops[:k]) for k in range(1, len(ops) + 1)])
     if f:
         ops = ops[:f[0] + 1]
-    for _ in range(12):
-        cands = [dict(cur, ops=ops[:i] + ops[i + 1:]) for i in range(len(ops)) if len(ops) > 1]
+    size = max(len(ops) // 2, 1)
+    budget = 30
+    while budget > 0 and len(ops) > 1:
+        budget -= 1
+        cands = [dict(cur, ops=ops[:i] + ops[i + size:]) for i in range(0, len(ops), size) if len(ops) - min(size, len(ops) - i) >= 1]
         f = failing(cands)
-        if not f:
+        if f:
+            ops = cands[f[-1]]["ops"]
+            size = min(size, max(len(ops) // 2, 1))
+        elif size > 1:
+            size = max(size // 2, 1)
+        else:
             break
-        ops = cands[f[-1]]["ops"]
     cur["ops"] = ops
     # simplify parameters
     cands = []
@@ -340,7 +355,7 @@ def main(argv):
     args = vlib.main_args(argv)
     out = vlib.Outcome(PID, args.tier, args.seed)
     rng = vlib.rng_for(args.seed, PID)
-    n_cases = 300 if args.tier == "quick" else 8000
+    n_cases = 240 if args.tier == "quick" else 8000
 
     proof_ok, pinfo = vlib.proof_stage(out, PROPS, TARGETS)
     cov = {"obligations": pinfo["obligations"], "discharged": pinfo["discharged"],
